@@ -265,7 +265,10 @@ def texts(T, tier):
             "AV:N/AC:L/Au:N/C:P/I:P/A:X", "CVSS:3.2/AV:N/AC:L/PR:N/UI:N/S:U/C:H/I:H/A:H",
             "AV:A/AC:M/Au:S/C:C/I:N/A:N", "CVSS:3.1/AV:L/AC:L/PR:L/UI:R/S:U/C:L/I:L/A:L",
             "AV:N/AC:H/Au:N/C:N/I:N/A:C/E:F",
-            " ", ".", "\n", "x", "/", "7.5/", "CVSS:3.1/", "é"]
+            " ", ".", "\n", "x", "/", "7.5/", "CVSS:3.1/", "é",
+            # prefixes a later release might learn to understand: whatever is made of them is made
+            # of them on every interpreter
+            "CVSS:2.0/AV:N/AC:L/Au:N/C:P/I:P/A:P"]
     out = list(toks)
     for a in toks:
         for b in toks:
@@ -305,6 +308,10 @@ def builder_cases(T, tier):
                     out.append((ver, allm, nc, stream))
                 out.append((ver, allm, nc, []))
                 out.append((ver, allm, nc, ["?", "", " "]))
+                if first == "last":
+                    # refused answers that are not ASCII (bytes on 2.7, text on 3.x), then legal ones:
+                    # whatever the builder does with a refused answer must work for these too
+                    out.append((ver, allm, nc, ["\u00e9", "N\u0301", "\u03a9 \u00df", "\u4e2d"] + stream))
                 low = []
                 for _ in range(len(ms) + 1):
                     low += [t.lower() for t in toks]
